@@ -31,8 +31,12 @@ template <class Org> struct Root
         v0 = Org::make(buf->data(), g);
     }
     unsigned char* base() { return buf->data(); }
-    uint64_t tag(long x, long y, int c, bool alt = false) const { return tag_pattern(g.w, Org::NCH, x, y, c, Org::chan_bits(c), Org::is_float, alt); }
-    void retag()
+    uint64_t tag(long x, long y, int c, bool alt = false) const { return tag_impl(x, y, c, alt, std::integral_constant<bool, Org::addressable>()); }
+    uint64_t tag_impl(long x, long y, int c, bool alt, std::true_type) const { return tag_pattern(g.w, Org::NCH, x, y, c, Org::chan_bits(c), Org::is_float, alt); }
+    uint64_t tag_impl(long x, long y, int c, bool, std::false_type) const { return Org::vtag(x, y, c); }
+    void retag() { retag_impl(std::integral_constant<bool, Org::addressable>()); }
+    void retag_impl(std::false_type) {}
+    void retag_impl(std::true_type)
     {
         for (long y = 0; y < g.h; ++y) for (long x = 0; x < g.w; ++x) for (int c = 0; c < Org::NCH; ++c)
             poke_bits(buf->data(), Org::chan_bitpos(g, x, y, c), Org::chan_bits(c), tag(x, y, c));
@@ -57,6 +61,14 @@ template <class V> inline std::string concrete_key(unsigned char const* b, V con
 {
     std::ostringstream o;
     o << iter_pos(b, v.pixels().x()) << '/' << v.pixels().pixel_size() << '/' << v.pixels().row_size() << '/' << v.width() << 'x' << v.height();
+    return o.str();
+}
+
+// virtual (function-backed) views: position and step of the locator in function coordinates
+template <class D, bool T> inline std::string concrete_key(unsigned char const*, gil::image_view<gil::virtual_2d_locator<D, T>> const& v)
+{
+    std::ostringstream o;
+    o << "v" << int(T) << ":" << v.pixels().pos().x << "," << v.pixels().pos().y << "/" << v.pixels().step().x << "," << v.pixels().step().y << "/" << v.width() << 'x' << v.height();
     return o.str();
 }
 
